@@ -19,6 +19,35 @@ type accessRec struct {
 	write bool
 	site  string
 	locks string
+	held  []uintptr
+}
+
+// NoObj is what Safe returns when the owner of a field cannot be reached (a nil link in the
+// selector chain): such an access is not recorded.
+type noObj struct{}
+
+var NoObj = &noObj{}
+
+// Safe evaluates the address of a field reached through a chain of selectors; a nil link
+// (which the statement itself may guard against by short-circuit evaluation) yields NoObj.
+func Safe(f func() interface{}) (r interface{}) {
+	defer func() {
+		if recover() != nil {
+			r = NoObj
+		}
+	}()
+	return f()
+}
+
+func commonLock(a, b []uintptr) bool {
+	for _, x := range a {
+		for _, y := range b {
+			if x == y {
+				return true
+			}
+		}
+	}
+	return false
 }
 
 type locKey struct {
@@ -74,6 +103,9 @@ func Access(site string, write bool, obj interface{}, field string) {
 	if t.dying {
 		return
 	}
+	if obj == interface{}(NoObj) {
+		return
+	}
 	k := locKey{PtrOf(obj), field}
 	if obj != nil && k.obj == 0 {
 		return // not an addressable identity (nil or value type)
@@ -87,7 +119,7 @@ func Access(site string, write bool, obj interface{}, field string) {
 	if len(tr.locs[k]) == 0 && obj != nil {
 		tr.keep = append(tr.keep, obj)
 	}
-	tr.locs[k] = append(tr.locs[k], accessRec{task: t.ID, write: write, site: site, locks: locks})
+	tr.locs[k] = append(tr.locs[k], accessRec{task: t.ID, write: write, site: site, locks: locks, held: append([]uintptr(nil), tr.held[t.ID]...)})
 	tr.n++
 }
 
@@ -137,7 +169,7 @@ func TrackEnd(w *World) []string {
 				if a.task == b.task || (!a.write && !b.write) {
 					continue
 				}
-				if a.locks != "[]" && a.locks == b.locks {
+				if commonLock(a.held, b.held) {
 					continue
 				}
 				if !a.write {
